@@ -198,7 +198,7 @@ def jump_unit(spec, exact, K, pre_tau=False, tag="C04", asserts=("walk",), lim_m
             m.initial_values = (x0, t0) if c.mode == "sym" else (np.array(x0, float), t0_given(t0))
         else:
             # typed initial state: a concrete integer-dtype array, as users write it (np.array([5, 2]))
-            x0 = np.array([5, 2, 3][:S], dtype=np.int64)
+            x0 = np.array([5, 2, 3][:S], dtype=np.int64) if x0_kind == "int64" else np.array([255, 0, 3][:S], dtype=np.uint8)   # uint8: at the edges of the dtype's range
             m.initial_values = (x0, t0_given(t0))
         if c.mode == "sym":
             m._x0 = x0
@@ -299,7 +299,7 @@ def jump_unit(spec, exact, K, pre_tau=False, tag="C04", asserts=("walk",), lim_m
                 c.note("exit: illegal step")
                 c.prove(any(l != (None, None) for l in lims), "loop leaves early only at the horizon, when nothing can fire, or on an illegal step")
     return Unit("%s.jump[%s,exact=%s,K=%d,pre_tau=%s,lims=%s%s]" % (tag, spec.name, exact, K, pre_tau, lim_mode, ("" if x0_kind == "sym" else ",x0=" + x0_kind) + ("" if t0_kind == "sym" else ",t0=" + t0_kind)), h,
-                bounds={"states": S, "events": E, "unwind_steps": K, "x0": "integers 0..6 (symbolic)" if x0_kind == "sym" else "concrete int64 array [5,2,3][:S]", "parameters": "symbolic > 0",
+                bounds={"states": S, "events": E, "unwind_steps": K, "x0": "integers 0..6 (symbolic)" if x0_kind == "sym" else ("concrete int64 array [5,2,3][:S]" if x0_kind == "int64" else "concrete uint8 array [255,0,3][:S]"), "parameters": "symbolic > 0",
                         "horizon": "symbolic", "tau_leap_rate_statistics": "havoc per step" if not exact else "n/a"},
                 program=spec.describe(), max_paths=max_paths)
 
@@ -429,6 +429,8 @@ class C04(Check):
         sp22 = [s for s in shape_specs() if s.name == "shape_2x2"][0]
         us.append(jump_unit(sp22, True, 2, x0_kind="int64"))
         us.append(jump_unit(sp22, False, 2, x0_kind="int64"))
+        us.append(jump_unit(sp22, True, 2, x0_kind="uint8"))
+        us.append(jump_unit(sp22, False, 2, x0_kind="uint8"))
         # the initial time written as a plain Python number
         us.append(jump_unit(sp22, True, 2, t0_kind="pyint"))
         us.append(jump_unit(sp22, False, 2, x0_kind="int64", t0_kind="pyfloat"))
